@@ -111,7 +111,33 @@ def fns():
         from uxarray.grid.intersections import fast_constant_lat_intersections, gca_const_lat_intersection, gca_gca_intersection
 
         _FN.update(gi=gca_gca_intersection, cl=gca_const_lat_intersection, fast=fast_constant_lat_intersections)
+        _FN["needs_pyfma"] = _probe_optional_dependency(gca_const_lat_intersection)
     return _FN
+
+
+def _probe_optional_dependency(cl):
+    """gca_const_lat_intersection on its default path (fma_disabled=True) on an arc that crosses the parallel.  If it
+    fails only because the *optional* package pyfma (extra "math" in pyproject.toml) is absent, that is reported once
+    as a verdict by the check, and an exact fused-multiply-add stand-in is installed so that everything else can still
+    be judged.  Returns the error text or None."""
+    import sys
+
+    import numpy as np
+
+    gca = np.array([XC.unit([1, 0, 0]), XC.unit([0, 1, 1])])
+    try:
+        cl(gca, 0.5)
+        return None
+    except ModuleNotFoundError as e:
+        if "pyfma" not in str(e):
+            raise
+        import types
+        from fractions import Fraction
+
+        shim = types.ModuleType("pyfma")
+        shim.fma = lambda a, b, c: float(Fraction(float(a)) * Fraction(float(b)) + Fraction(float(c)))  # one rounding
+        sys.modules["pyfma"] = shim
+        return "%s: %s" % (type(e).__name__, e)
 
 
 def warm_up():
